@@ -3,7 +3,8 @@
 # Runs the property's quick check against another checkout of the repository (never /repo).
 id=$1; wt=$2; shift 2
 export GOFLAGS=-mod=mod GOPROXY=off
+# evidence written by this run would describe the seeded tree: keep the current one
+cp evidence/$id.json work/.evidence-$id.keep 2>/dev/null
 VERIF_REPO=$wt ./engine/bin/verifctl check $id --no-tv "$@" 2>&1 | cut -c1-400 | grep -v "^INCONCLUSIVE.*truncated" | tail -8
-# evidence written by this run describes the seeded tree: restore the committed one
-git checkout -- evidence/$id.json 2>/dev/null
-rm -rf work/ws-*
+if [ -f work/.evidence-$id.keep ]; then mv work/.evidence-$id.keep evidence/$id.json; else git checkout -- evidence/$id.json 2>/dev/null; fi
+rm -rf work/ws-$(echo $wt | sed 's|^/||; s|/|_|g')
